@@ -243,6 +243,8 @@ impl Integer for BigUint {
 
         while !m.is_zero() {
             m >>= twos(&m);
+            #[cfg(num_bigint_verif)]
+            crate::verif_probe::hit(crate::verif_probe::Probe::GCD_LOOP);
             if n > m {
                 mem::swap(&mut n, &mut m)
             }
@@ -341,6 +343,8 @@ where
     // If the value increased, then the initial guess must have been low.
     // Repeat until we reverse course.
     while x < xn {
+        #[cfg(num_bigint_verif)]
+        crate::verif_probe::hit(crate::verif_probe::Probe::ROOT_UP);
         // Sometimes an increase will go way too far, especially with large
         // powers, and then take a long time to walk back.  We know an upper
         // bound based on bit size, so saturate on that.
@@ -355,6 +359,8 @@ where
     // Now keep repeating while the estimate is decreasing.
     while x > xn {
         x = xn;
+        #[cfg(num_bigint_verif)]
+        crate::verif_probe::hit(crate::verif_probe::Probe::ROOT_DOWN);
         xn = f(&x);
     }
     x
